@@ -366,4 +366,6 @@ def run(chk, tier):
                 filt = [c for c in chain if c in ("filter", "filter_map", "skip_while", "take_while", "skip", "flat_map")]
                 chk.expect(not filt, "value-separator", h["path"].split("::")[-1], f"split#{n_split}", "no filtering adaptor on the parts", filt, loc=f"{h['loc']['f']}:{x[1]}")
     chk.floor("value-separator", "backslash splits in value readers", n_split, 7)
+    from . import shared
+    shared.value_reader_codec_calls(chk, fx, "value-reader-codec-calls")
     chk.undecided.append("equality of values after write+read for arbitrary data sets; 'writing never fails' for well-formed data")
